@@ -24,7 +24,15 @@ THEOREMS = [
     "Mpc.C02_abs_words_agree_nonneg",
     "Mpc.C02_abs_words_differ_witness",
     "Mpc.C02_abs_words_session_wrong",
+    # circuit construction routes: the circuit VALUE with its derived data (Model/Proto2Route.lean)
+    "Mpc.C02_both_get_f_every_circuit_value",
+    "Mpc.C02_session_independent_of_derived_data",
+    "Mpc.C02_route_defining_fields",
+    "Mpc.C02_both_get_f_every_route",
+    "Mpc.C02_routes_carry_wrong_statistics",
 ]
+
+ROUTES = ["exact", "zero", "stale", "parsed", "appended", "levels"]
 
 # The message grammar the model assumes (Model/Proto2.lean), as the ordered
 # list of connection / OT calls in the two functions.
@@ -99,7 +107,10 @@ def run(ctx):
                     "compiled": "compiled MPCL programs incl. struct/array arguments, results",
                     "repr": "inputs as the API produces them: IOArg.Parse of decimal / signed / 0x / 0b / 0o texts for int, uint, "
                             "bool, struct and array arguments and *big.Int values of any sign and magnitude passed directly, "
-                            "both parties, every OT, hand-made / compiled / overlapping sessions; op lines carry the signed "
+                            "both parties, every OT, hand-made / compiled / overlapping sessions, the circuit VALUE of every case "
+                            "constructed along a planned route (struct literal with exact / zero / stale Stats, parsed from "
+                            "bytes, parsed then gates appended, after AssignLevels); op lines carry the route, the Stats field "
+                            "the value really had (the model's circuit value carries and ignores it) and the signed "
                             "integers per member, the model encodes them with big.Int.Bit semantics; ideal OT: transcripts",
                     "shared": "24 overlapping sessions per round on ONE shared circuit value, transcripts + results",
                     "conn": "byte volumes across the 64 KiB / 1 MiB Conn buffers x every OT over the fragmenting, delaying "
@@ -128,6 +139,19 @@ def run(ctx):
                            ("zero", "magnitude_wider_than_argument", "negative_argument_over_64_bits", "form_text",
                             "form_direct", "arg_int", "arg_uint", "arg_struct", "arg_array")),
                        "counters: %s" % {k: v for k, v in c.items() if k.startswith("repr_repr_" + side)})
+        # construction routes of the circuit value: every route must have run in every session class, and the
+        # routes that leave the derived statistics wrong must have done so on circuits that transmit garbled rows
+        for route in ROUTES:
+            keys = ["repr_route_%s_kind_%s" % (route, k) for k in ("random", "parity", "compiled", "shared")] + \
+                   ["repr_route_%s_ot_%s" % (route, k) for k in ("ideal", "co", "cot", "cotm")] + \
+                   ["%s_route_%s" % (m, route) for m in ("ideal", "real", "compiled", "shared")] + \
+                   ["repr_route_%s_with_transmitted_rows" % route]
+            if route in ("zero", "stale", "appended"):
+                keys += ["%s_route_%s_stats_differ_from_gate_list" % (m, route) for m in ("repr", "ideal", "real")]
+            ctx.oblige("generator: circuit values constructed along route '%s' ran in every session class (hand-made random / "
+                       "parity / compiled / overlapping on one shared value; ideal, CO, COT, COT-malicious OT; bit and "
+                       "integer inputs)" % route, all(c.get(k, 0) > 0 for k in keys),
+                       "missing: %s" % [k for k in keys if not c.get(k, 0)])
         # the size / schedule classes the quantifier names must actually have been generated
         for otn in ("ideal", "co", "cot", "cotm", "rsa"):
             ctx.oblige("generator: a %s-OT session moved more than 1 MiB (the Conn read buffer) to the evaluator" % otn,
@@ -146,7 +170,9 @@ def run(ctx):
                     ctx.absorb_meta(meta, prefix="widen_")
                 if ctx.fails:
                     break
-    ctx.coverage["rule"] = ("repr mode: per party and flattened member a value class (0, in range, -1, negative in the signed "
+    ctx.coverage["rule"] = ("construction route of the circuit value by case index (repr: (i/4)%6, shared rounds round%6; ideal / "
+                            "real: i%6; compiled: (i/3)%6; the conn mode keeps exact literals) over exact / zero / stale (prefix counts, doubled, kinds rotated, all ones) / parsed / "
+                            "appended (1..4 gates of any kind on new wires) / levels; repr mode: per party and flattened member a value class (0, in range, -1, negative in the signed "
                             "range, -2^(w-1), 2^(w-1)-1, 2^w-1, +-2^w, positive / negative wider than the argument, magnitudes "
                             "at machine-word boundaries, small negative) written as decimal / +-0x / 0b / 0o text through "
                             "IOArg.Parse or passed directly as *big.Int, on int / uint / bool / struct / array arguments of "
@@ -160,6 +186,9 @@ def run(ctx):
                             "(d in 0..20, delaying so that data accumulates), sizes around multiples of 64 KiB / 1 MiB, random "
                             "sizes, single-byte prefix; distinct = distinct op lines")
     ctx.assumptions += [
+        "circuit.Garbler / circuit.Evaluator read only Gates, NumWires, Inputs, Outputs of the circuit value: the model's "
+        "Circuit2 has no field for the derived data (Stats, Gate.Level); run2Go on a GoCircuit states it, the route dimension "
+        "of the repr / ideal / real / compiled / shared modes ties it (obligations: every route ran in every session class)",
         "OT is a parameter satisfying OtSpec in the theorem (C06 proves it per implementation); real-OT sessions are compared on results only",
         "the two parties' goroutine scheduling is outside the model (the protocol is a fixed alternation; the Conn layer's ordering is C11)",
         "AES is an arbitrary key-derived function in the theorem",
@@ -170,6 +199,9 @@ def run(ctx):
         "C02_input_bits_twos_complement: the wire bits of (w, v) are the digits of v mod 2^w; C02_packed_argument_faithful "
         "(IOArg.Parse's struct packing); witnesses C02_abs_words_*: the words of |v| agree with Bit(i) exactly on v >= 0. Tie "
         "(repr mode): op lines carry the signed integers, real sessions take them from IOArg.Parse texts or directly. "
+        "C02_both_get_f_every_circuit_value / _every_route: the same for a Go circuit VALUE whatever its derived fields (Stats, "
+        "Gate.Level) hold and along every construction route (exact, zero, stale, parsed, appended, levels); "
+        "C02_session_independent_of_derived_data; tie: op `c02 rt <route> <Stats> ...` in the repr, ideal, real, compiled and shared modes. "
         "Theorem C02_both_get_f: for every WF 2-party circuit, inputs, key derivation, offset, label randomness and every OT "
         "satisfying OtSpec, both model runs return ok(split(plainEval(x++y))), no error branch. Tie: real "
         "circuit.Garbler/Evaluator over a recording fragmenting transport; with an out-of-band ideal OT the complete byte "
